@@ -210,6 +210,28 @@ class StorageModel(Model):
         return TupleV([ObjV(p), FileV(name)])
 
 
+def _storage_read_termination():
+    """C11: no well-formedness of the storages (holes, overlaps, empty or reversed ranges): the loop still terminates"""
+    offset0, length0 = z3.Ints("offset0 length0")
+
+    def mk():
+        m = StorageModel()
+        m.hyps = [m.n >= 0]
+        return m
+
+    def inv(eng, st):
+        m = eng.model
+        si = st.env["stream_idx"].e
+        return z3.And(si >= -1, si <= m.n)
+
+    return FnContract(FILE, "StorageStream._read", ["C11"], mk,
+                      params=lambda m: {"self": ObjV("self"), "offset": IntV(offset0), "length": IntV(length0)},
+                      requires=lambda m: m.hyps + [offset0 >= 0, length0 >= 0], post=lambda eng, st, rv: [],
+                      loops={("While", 0): LoopSpec(inv, lambda eng, st: eng.model.n - st.env["stream_idx"].e)},
+                      mode="termination", allow_any_exception=True,
+                      note="variant: number of storages not yet visited (the step in sectors is descriptor-derived and may be zero or negative)")
+
+
 def _storage_read():
     offset0, length0 = z3.Ints("offset0 length0")
     A, N = z3.Ints("A N")
@@ -341,4 +363,4 @@ def trusted(pid):
 
 
 def contracts(repo):
-    return [_iter_runs("functional"), _hds_read(), _iter_runs("termination"), _storage_read(), _storage_init()]
+    return [_iter_runs("functional"), _hds_read(), _iter_runs("termination"), _storage_read(), _storage_init(), _storage_read_termination()]
